@@ -153,6 +153,14 @@ func runBatch(r *core.Run) {
 	if text == "" {
 		text = "a"
 	}
+	if mp := magicPrefix[gf]; len(mp) > 0 && c.Prob(1, 10) {
+		// a text whose own encoding begins like a concatenation header, short enough for one part in many runs
+		text = mp[c.Intn(len(mp))] + text
+		if c.Bool() && len([]rune(text)) > 40 {
+			text = string([]rune(text)[:8+c.Intn(30)])
+		}
+		r.Probe("text_begins_like_a_header")
+	}
 	if !isSMPP && c.Prob(1, 40) {
 		// a text that is wider in GB18030 (four octets per character) than in UCS-2 (two), long enough that the GBK
 		// candidate needs more than 255 parts while UCS-2 still fits: the fallback must not be skipped
